@@ -415,6 +415,45 @@ fn generate(a: &Args) -> i32 {
         o.fail("C10-cap-pull-bound", "bytes pulled beyond the cap exceed the fixed allowance", st.max_over_cap_case.as_bytes(), &st.max_over_cap.to_string(), &format!("<= {allowance}"));
     }
 
+    // ---- UTF-16 input (decoded by the external encoding_rs_io layer in front of the repo's reassembler):
+    // truncation inside a code unit / a surrogate pair must be an error, and the cap bounds the bytes PULLED
+    for (ti, text) in ["a: xyz", "k: [1, 2]\nname: v\u{e9}\n", "a: x\u{1F600}", "- \u{20ac}uro\n- b\n"].into_iter().enumerate() {
+        for be in [false, true] {
+            let mut raw: Vec<u8> = if be { vec![0xFE, 0xFF] } else { vec![0xFF, 0xFE] };
+            for u in text.encode_utf16() { raw.extend_from_slice(&(if be { u.to_be_bytes() } else { u.to_le_bytes() })); }
+            let full = serde_saphyr::from_reader_with_options::<_, serde_json::Value>(SchedReader::whole(&raw), opts(None));
+            sink.count("utf16.docs");
+            if full.is_err() { o.fail("C10-utf16-full-rejected", "complete UTF-16 input with BOM rejected", &raw, "err", "ok"); continue; }
+            // (a) cut inside a code unit (odd length) and inside a surrogate pair (after the high surrogate)
+            let mut cuts: Vec<usize> = (3..raw.len()).filter(|k| k % 2 == 1).collect();
+            let units: Vec<u16> = text.encode_utf16().collect();
+            for (i, u) in units.iter().enumerate() { if (0xD800..0xDC00).contains(u) { cuts.push(2 + 2 * (i + 1)); } }
+            for k in cuts {
+                let r = serde_saphyr::from_reader_with_options::<_, serde_json::Value>(SchedReader::whole(&raw[..k]), opts(None));
+                sink.count("utf16.truncated_inside_character");
+                nontrivial += 1;
+                if let Ok(v) = &r {
+                    o.fail("C10-utf16-truncated-lossy", &format!("UTF-16{} input cut at byte {k} of {} (inside a code unit or surrogate pair) returned a value", if be { "BE" } else { "LE" }, raw.len()), &raw[..k], &format!("ok {v}"), "err");
+                }
+            }
+            // (b) the cap counts decoded UTF-8 bytes: a UTF-16 input is pulled to about twice the cap
+            if ti == 1 {
+                let mut big = String::new();
+                for i in 0..3000 { big.push_str(&format!("key{i}: value number {i}\n")); }
+                let mut rawb: Vec<u8> = if be { vec![0xFE, 0xFF] } else { vec![0xFF, 0xFE] };
+                for u in big.encode_utf16() { rawb.extend_from_slice(&(if be { u.to_be_bytes() } else { u.to_le_bytes() })); }
+                let cap = big.len() + 16;          // decoded size fits, raw size is twice that
+                let mut rd = SchedReader::new(&rawb, &[], 4096, rawb.len(), Tail::Eof);
+                let r = serde_saphyr::from_reader_with_options::<_, IgnoredAny>(&mut rd, opts(Some(cap)));
+                sink.count("utf16.cap_runs");
+                let allowance: i64 = 8192 + 8192 + 1024 + 4;
+                if r.is_ok() && rd.pulled as i64 - cap as i64 > allowance {
+                    o.fail("C10-utf16-cap-counts-decoded", &format!("UTF-16 input of {} raw bytes accepted under cap {cap}: {} bytes pulled from the reader", rawb.len(), rd.pulled), b"(generated UTF-16 mapping)", &format!("ok pulled={}", rd.pulled), &format!("err, or pulled <= cap + {allowance}"));
+                }
+            }
+        }
+    }
+
     // ---- writer side
     let mut wn = 0;
     for d in &docs {
